@@ -15,15 +15,19 @@ class Crash(Exception):
     pass
 
 
-def _mk(mv, sv):
+def _mk(mv, sv, empty_lists=False):
     """Provider MDIB whose m0 already HAS a MetricValue, pcs0 has CoreData, lcs0 a LocationDetail, ac0 a Source list -
-    nested members that a shallow copy would share."""
+    nested members that a shallow copy would share. empty_lists: the list members (BodySite, Validator, Source) are EMPTY in
+    the MDIB (an empty list is as mutable as a filled one)."""
     pm, cap = k.mk_provider(mv, operations=True)
     st = pm.states.descriptor_handle.get_one('m0')
     st.StateVersion = sv
     st.mk_metric_value()
     st.MetricValue.Value = 'orig'
-    st.BodySite = [pm_types.CodedValue('site')]
+    st.BodySite = [] if empty_lists else [pm_types.CodedValue('site')]
+    if empty_lists:
+        pm.descriptions.handle.get_one('ac0').Source = []
+        pm.descriptions.update_object(pm.descriptions.handle.get_one('ac0'))
     pc = pm.descriptions.handle.get_one('pc0')
     lc = pm.descriptions.handle.get_one('lc0')
     ps = k.mk_context_state(pm, pc, 'pcs0', CA.ASSOCIATED, binding=0, sv=sv)
@@ -31,13 +35,17 @@ def _mk(mv, sv):
     ps.CoreData.Givenname = 'orig'
     ls = k.mk_context_state(pm, lc, 'lcs0', CA.ASSOCIATED, binding=0, sv=sv)
     ls.LocationDetail.Bed = 'orig'
-    ls.Validator = [pm_types.InstanceIdentifier('root')]
+    ls.Validator = [] if empty_lists else [pm_types.InstanceIdentifier('root')]
     pm.add_state_containers([ps, ls])
     return pm, cap
 
 
 def _snap(pm):
-    return k.snapshot(pm, with_indices=False)
+    snap = k.snapshot(pm, with_indices=False)
+    # the MDIB's memory of the versions of removed objects is part of its state, too
+    snap['saved_versions'] = (dict(pm.descriptions.handle_version_lookup), dict(pm.states.handle_version_lookup),
+                              dict(pm.context_states.handle_version_lookup))
+    return snap
 
 
 def _idx_ok(pm):
@@ -53,17 +61,20 @@ def _same(pm, orc, before, tag):
     orc.check(after['descriptors'] == before['descriptors'], tag + ':descriptor-content-changed')
     orc.check(after['states'] == before['states'], tag + ':state-content-changed')
     orc.check(after['context_states'] == before['context_states'], tag + ':context-state-content-changed')
+    orc.check(after['saved_versions'] == before['saved_versions'], tag + ':saved-versions-of-removed-objects-changed')
     orc.check(_idx_ok(pm), tag + ':index!=scan')
 
 
-def aborted(kind: int, crash: int, mv: int, sv: int, val: str) -> str:
+def aborted(kind: int, crash: int, mv: int, sv: int, val: str, empty: bool) -> str:
     """
     Transaction body with up to 3 steps that write symbolic values into NESTED members of the objects handed out, aborted by an
     exception after `crash` steps (crash == 3: after all steps, still inside the with block).
     kind: 0 metric (MetricValue.Value, BodySite list), 1 context patient (CoreData.Givenname), 2 context location
     (LocationDetail.Bed, Validator list), 3 descriptor (ac0.Source list, m0.Unit.Code), 4 metric via entity getter,
-    5 context via entity getter.
-    pre: 0 <= kind <= 5
+    5 context via entity getter, 6 descriptor transaction that re-creates a handle removed earlier (the MDIB remembers its last
+    versions), 7 context transaction that re-creates a context state handle removed earlier.
+    empty: the list members written to are empty (instead of filled) in the MDIB.
+    pre: 0 <= kind <= 7
     pre: 0 <= crash <= 3
     pre: mv >= 0
     pre: sv >= 0
@@ -72,10 +83,34 @@ def aborted(kind: int, crash: int, mv: int, sv: int, val: str) -> str:
     """
     orc = Oracle()
     try:
-        pm, cap = _mk(mv, sv)
+        pm, cap = _mk(mv, sv, empty_lists=empty)
+        if kind in (6, 7):
+            pm.descriptions.handle_version_lookup['m9'] = sv + 2
+            pm.states.handle_version_lookup['m9'] = sv + 3
+            pm.context_states.handle_version_lookup['pcs9'] = sv + 4
         before = _snap(pm)
         try:
-            if kind == 0:
+            if kind == 6:
+                from sdc11073.mdib import descriptorcontainers as dc
+                with pm.descriptor_transaction() as tr:
+                    nd = dc.StringMetricDescriptorContainer('m9', 'ch0')
+                    ns = pm.data_model.get_state_class_for_descriptor(nd)(nd)
+                    if crash >= 1:
+                        tr.add_descriptor(nd, state_container=ns)
+                    if crash >= 2:
+                        ent = pm.entities.new_entity(pm.data_model.pm_names.StringMetricDescriptor, 'm8', 'ch0')
+                        tr.write_entity(ent)
+                    raise Crash
+            elif kind == 7:
+                with pm.context_state_transaction() as tr:
+                    if crash >= 1:
+                        tr.mk_context_state('pc0', 'pcs9')
+                    if crash >= 2:
+                        ent = pm.entities.by_handle('pc0')
+                        ent.new_state('pcs9b')
+                        tr.write_entity(ent, ['pcs9b'])
+                    raise Crash
+            elif kind == 0:
                 with pm.metric_state_transaction(set_determination_time=False) as tr:
                     if crash == 0:
                         raise Crash
